@@ -40,7 +40,7 @@ KEEP_PER_MECH = 3         # witnesses kept per mechanism and cell
 RAISE_BREAKER = 100       # per cell and function: stop calling after that many raising calls
 PROGRAM_CALL_BUDGET = 4000   # outermost wrapped calls judged per program; beyond: every 40th
 BUDGET_SAMPLING = 40
-PROGRAM_WATCHDOG = 180    # seconds per generated program incl. its erasures (watchdog only)
+PROGRAM_WATCHDOG = 60     # CPU seconds (ITIMER_VIRTUAL) per generated program incl. its erasures
 GRAPH_WATCHDOG = 120      # seconds for all calls on one graph (watchdog, never a verdict)
 EXH_TOTAL = 1 + 2 + 16 + 512 + 65536
 KNOWN_PATTERN = 'kept-iff-no-extension-of-length-2L-1'
@@ -427,6 +427,7 @@ def _load_gu(cell=None):
     boot.light()
     import src.graph_utils as gu
     assert gu.__file__.startswith(common.REPO), gu.__file__
+    import networkx  # noqa: F401  (never let a watchdog interrupt this import)
     signal.signal(signal.SIGALRM, _on_alarm)
     return gu
 
@@ -712,14 +713,15 @@ def cell_pipeline(cell):
     mon.nx_every = cell.get('nx_every', 1)
     mon.install()
     assert tda.gu.dfs.__wrapped__ is mon.orig['dfs']
-    signal.signal(signal.SIGALRM, _on_alarm)
+    import networkx  # noqa: F401  (never let a watchdog interrupt this import)
+    signal.signal(signal.SIGVTALRM, _on_alarm)
     for s in cell['seeds']:
         mon.case = {'language': cell['language'], 'seed': s,
                     'switches': list(cell.get('switches', ())),
                     'max_depth': cell.get('max_depth'),
                     'transformations': cell.get('transformations', 2)}
         mon.prog_calls = 0
-        signal.alarm(cell.get('program_watchdog', PROGRAM_WATCHDOG))
+        signal.setitimer(signal.ITIMER_VIRTUAL, cell.get('program_watchdog', PROGRAM_WATCHDOG))
         try:
             boot.reseed(s)
             heph.utils.random.reset_word_pool()
@@ -739,7 +741,7 @@ def cell_pipeline(cell):
             out.info.setdefault('pipeline_exceptions', []).append(
                 '%s seed=%s %s: %s' % (cell['language'], s, type(e).__name__, str(e)[:120]))
         finally:
-            signal.alarm(0)
+            signal.setitimer(signal.ITIMER_VIRTUAL, 0)
     if mon.over_budget:
         out.unjudged['pipe-call-over-program-budget'] = mon.over_budget
     return out.result()
@@ -764,8 +766,8 @@ SIZES = {
     #            exhaustive containers   random graphs  pipeline programs / cell, cells
     'quick':    {'containers': ['list'], 'rnd_cells': 16, 'rnd_count': 125,
                  'pipe_cells': 8, 'pipe_programs': 5, 'exh_cells': 32},
-    'thorough': {'containers': ['list', 'set'], 'rnd_cells': 100, 'rnd_count': 1000,
-                 'pipe_cells': 32, 'pipe_programs': 10, 'exh_cells': 32},
+    'thorough': {'containers': ['list', 'set'], 'rnd_cells': 60, 'rnd_count': 1000,
+                 'pipe_cells': 24, 'pipe_programs': 10, 'exh_cells': 32},
 }
 
 
@@ -778,7 +780,7 @@ def plan(tier, seed):
         c = {'kind': 'pipe', 'language': LANGS[i % len(LANGS)],
              'seeds': [common.h32(seed, 'C19-prog', i, j) for j in range(sz['pipe_programs'])],
              'nx_every': 1 if tier == 'quick' else 3,
-             'program_watchdog': 60 if tier == 'quick' else PROGRAM_WATCHDOG}
+             'program_watchdog': 40 if tier == 'quick' else PROGRAM_WATCHDOG}
         if tier != 'quick' and i >= 8:
             c['switches'] = [s for s in SWITCHES if r.random() < 0.3]
             c['max_depth'] = r.choice((None, None, 5, 6, 7))
@@ -859,8 +861,8 @@ def main(prop, tier):
         'truthiness, set and multiset-of-paths equality are judged, container types are not',
         'pipeline type graphs: only dfs is called by the analysis (other wrappers stay at zero events); '
         'per program the first %d outermost calls are judged, then every %dth (one erasure can make '
-        '> 10^6 calls on variants of one type graph); a program running longer than %d s wall '
-        '(60 s on the quick tier) is cut (coverage only, counted)'
+        '> 10^6 calls on variants of one type graph); a program using more than %d CPU-seconds '
+        '(40 on the quick tier) is cut (coverage only, counted)'
         % (PROGRAM_CALL_BUDGET, BUDGET_SAMPLING, PROGRAM_WATCHDOG),
     ]
     extra = {'exhaustive_graphs': ev.get('exh.graphs', 0),
